@@ -830,6 +830,56 @@ theorem configure_sources_equivalent (validate : Validate) (D opts : Kids) (hw :
   · cases sfx <;> first | exact absurd rfl hs | simp [configure, combine, hc, hne]
   · rw [h2]; simp [effective, combine, hc]
 
+/-! ### the environment delivers every text as it is -/
+
+theorem knobVal_pinned (v : Val) : knobVal pinnedKnobs v = some v := by
+  cases v <;> simp [knobVal, pinnedKnobs]
+
+theorem envVarsWith_pinned (vars : List (String × Val)) : envVarsWith pinnedKnobs vars = vars := by
+  induction vars with
+  | nil => rfl
+  | cons nv r ih => simp [envVarsWith, knobVal_pinned]
+
+/-- with the settings of the pinned tree (`env_ignore_empty` off, no `env_parse_none_str`) no variable is dropped or rewritten
+because of its text -/
+theorem envTreeWith_pinned (vars : List (String × Val)) : envTreeWith pinnedKnobs vars = envTree vars := by
+  simp [envTreeWith, envVarsWith_pinned]
+
+/-- the spellings do not depend on the text that is assigned: an environment spelling exists for *every* value (the empty text,
+blank text, texts that read as a number, a boolean, `null` or JSON, texts containing `=`, `__`, `,` …), an `-o` spelling for
+every text that is not bracketed -/
+theorem envSafe_any_value (p : List String) (v w : Val) : envSafe (p, v) = envSafe (p, w) := rfl
+theorem optSafeVal_text (s : String) : optSafeVal (.str s) = !bracketed s.toList := rfl
+
+/-- **the environment is an equivalent source for every text**: one `pydjinni__…` variable per leaf rebuilds the dictionary,
+whatever the texts at the leaves are -/
+theorem env_source_verbatim (D : Kids) (hw : wf (.node D) = true) (hn : noEmptyKids D = true)
+    (he : ∀ pv ∈ leavesKids D, envSafe pv = true) :
+    envTreeWith pinnedKnobs ((leavesKids D).map renderEnvVar) = D := by
+  rw [envTreeWith_pinned]; exact (sources_equivalent D hw hn).2 he
+
+private def exEmptyText : Kids := [("generate", .node [("java", .node [("function_prefix", .leaf (.str ""))])])]
+
+/-- were `env_ignore_empty` set, a variable with the empty text would be dropped … -/
+theorem ignoreEmpty_drops (n : String) (t : Option String) : envVarsWith ⟨true, t⟩ [(n, .str "")] = [] := by
+  simp [envVarsWith, knobVal]
+
+/-- … and were `env_parse_none_str` set, a variable with that text would arrive as `None`; the pinned settings keep both -/
+theorem noneText_rewrites (n s : String) :
+    envVarsWith ⟨false, some s⟩ [(n, .str s)] = [(n, .null)] ∧ envVarsWith pinnedKnobs [(n, .str s)] = [(n, .str s)] := by
+  simp [envVarsWith, knobVal, pinnedKnobs]
+
+/-- counterexample: with `env_ignore_empty` the valid setting `generate.java.function_prefix = ""` (no prefix) given as an
+environment variable is silently lost, while a file, the options dict and `-o` keep it; with the pinned settings it arrives -/
+theorem ignoreEmpty_breaks_equivalence :
+    wf (.node exEmptyText) = true ∧ noEmptyKids exEmptyText = true ∧ (leavesKids exEmptyText).all envSafe = true
+    ∧ (leavesKids exEmptyText).all optSafe = true
+    ∧ (envTreeWith ⟨true, none⟩ ((leavesKids exEmptyText).map renderEnvVar)).isEmpty = true
+    ∧ envTreeWith pinnedKnobs ((leavesKids exEmptyText).map renderEnvVar) = exEmptyText := by
+  have he : (leavesKids exEmptyText).all envSafe = true := by decide +kernel
+  refine ⟨by decide +kernel, by decide +kernel, he, by decide +kernel, by decide +kernel, ?_⟩
+  exact env_source_verbatim _ (by decide +kernel) (by decide +kernel) (fun pv h => List.all_eq_true.mp he pv h)
+
 /-! ### precedence between the sources -/
 
 /-- what the file/options say wins over the environment and the `.env` file … -/
@@ -995,6 +1045,22 @@ private def exOver : Kids := [("generate", .node [("cpp", .node [("out", .node [
 #guard (match foldOptions ((leavesKids exBase).map renderOption) [] with | .ok t => kidsBeq t exBase | .error _ => false)
 #guard kidsBeq (envTree ((leavesKids exBase).map renderEnvVar)) exBase
 #guard ((leavesKids exBase).map renderEnvVar).map (·.1) == ["pydjinni__generate__cpp__out", "pydjinni__generate__cpp__namespace", "pydjinni__generate__include_dirs"]
+-- sources_equivalent / env_source_verbatim with edge texts at the leaves: empty, blank, number-, boolean-, null- and JSON-like,
+-- texts containing the separators of the spellings
+private def exEdge : Kids := [("generate", .node [("java", .node [("function_prefix", .leaf (.str "")), ("native_lib", .leaf (.str " ")),
+    ("nullable_annotation", .leaf (.str "null")), ("nonnull_annotation", .leaf (.str "a=b"))]),
+  ("objc", .node [("type_prefix", .leaf (.str "1")), ("header_extension", .leaf (.str "true")), ("source_extension", .leaf (.str "{\"a\": 1}"))]),
+  ("cpp", .node [("header_extension", .leaf (.str "a__b")), ("source_extension", .leaf (.str "[x")), ("namespace", .leaf (.strs ["", "a b", "="])),
+    ("identifier", .node [("type", .node [("prefix", .leaf (.str "a,b"))]), ("enum", .node [("prefix", .leaf (.str "\"q\""))])])])])]
+#guard wf (.node exEdge) && noEmptyKids exEdge && (leavesKids exEdge).all optSafe && (leavesKids exEdge).all envSafe
+#guard (match foldOptions ((leavesKids exEdge).map renderOption) [] with | .ok t => kidsBeq t exEdge | .error _ => false)
+#guard kidsBeq (envTreeWith pinnedKnobs ((leavesKids exEdge).map renderEnvVar)) exEdge
+#guard ((leavesKids exEdge).map renderOption).take 4 == ["generate.java.function_prefix=", "generate.java.native_lib= ",
+  "generate.java.nullable_annotation=null", "generate.java.nonnull_annotation=a=b"]
+#guard !kidsBeq (envTreeWith ⟨true, none⟩ ((leavesKids exEdge).map renderEnvVar)) exEdge
+#guard !kidsBeq (envTreeWith ⟨false, some "null"⟩ ((leavesKids exEdge).map renderEnvVar)) exEdge
+-- a bracketed text has no `-o` spelling (it would be read as a list)
+#guard !optSafeVal (.str "[a,b]") && !optSafeVal (.str "[]") && optSafeVal (.str "[x") && optSafeVal (.str "")
 -- options: later wins, a scalar gives way to nested keys, malformed text is refused
 #guard (match foldOptions ["a=1", "a.b=2", "a.c=[x,y]"] [] with
   | .ok t => kidsBeq t [("a", .node [("b", .leaf (.str "2")), ("c", .leaf (.strs ["x", "y"]))])] | .error _ => false)
